@@ -22,6 +22,23 @@ Theorem C13_indexes : forall h t ub vs p ops s, s = run (init h t ub vs p) ops -
 Proof. exact indexes_one_to_one. Qed.
 Print Assumptions C13_indexes.
 
+(* 1b. genesis export / import (chain restart from exported state): ExportGenesis exports every oracle record
+       (read from the source on every run), and then export + import gives back exactly the registry — records
+       and both indexes — and touches nothing of the stake *)
+Theorem C13_export_covers_all_oracles : export_all_oracles = true.
+Proof. reflexivity. Qed.
+Print Assumptions C13_export_covers_all_oracles.
+
+Theorem C13_export_import_preserves_registry : export_all_oracles = true ->
+  forall s s', idx_inv s -> keys_inv s -> step s ExportImport = Ok s' ->
+  (forall a, recs s' a = recs s a) /\
+  (forall b, by_bridger s' b = by_bridger s b) /\
+  (forall e, by_ext s' e = by_ext s e) /\
+  proposal s' = proposal s /\ prm s' = prm s /\ deleg s' = deleg s /\ ubds s' = ubds s /\
+  bal_o s' = bal_o s /\ bal_d s' = bal_d s /\ burned s' = burned s /\ gov_und s' = gov_und s /\ vals s' = vals s.
+Proof. exact export_import_preserves_registry. Qed.
+Print Assumptions C13_export_import_preserves_registry.
+
 (* 2. only approved oracles bond, stake inside the bounds; recorded = transferred = delegated
       ([deleg] counts SHARES scaled 10^18; [rate1 s]: no validator has been slashed by staking, 1 share = 1 token) *)
 Theorem C13_bond_rules : forall s a b e v amt s', step s (Bond a b e v amt) = Ok s' ->
